@@ -1,7 +1,7 @@
 # C01: quadratic-residue encoding with real arithmetic over toy Blum moduli
 for _priv in (0, 1):
     H(id='C01_qr_open' + ('_private' if _priv else ''), property='C01', src='C01_card.cc', entry='h_qr_open',
-      tu=['SchindelhauerTMCG.cc', 'TMCG_CardSecret.cc', 'TMCG_PublicKey.cc', 'TMCG_Card.cc', 'mpz_sqrtm.cc'], unwind=8, timeout=900, replace=PROTO_REPLACE,
+      tu=['SchindelhauerTMCG.cc', 'TMCG_CardSecret.cc', 'TMCG_PublicKey.cc', 'TMCG_Card.cc', 'mpz_sqrtm.cc'], unwind=8, timeout=1800, replace=PROTO_REPLACE,
       defines=dict({'VF_BITS': 12, 'H_MAXDRAWS': 24, 'H_DBITS': 4, 'MINISTL_STREAM_CAP': 128, 'H_COINS_UNITS': 1}, **({'H_PRIVATE': 1} if _priv else {})),
       config={'TMCG_MAX_FPOWM_T': 8, 'TMCG_MAX_PLAYERS': 4, 'TMCG_MAX_TYPEBITS': 3},
       desc='quadratic-residue encoding, 2 players, moduli 21 and 33: %s card of type T, masked by player 0 then player 1, decodes (each row by its owner\'s factors, rows XORed) to T' % ('privately created' if _priv else 'open'),
